@@ -145,6 +145,15 @@ CLAIMS = {
         design="6 C11 (pure-function exception of the method)",
         technique="rules transcribed into TLA+ operators, TLC enumerates the case space, one implementation run per case judged by TLC",
     ),
+    "C01": dict(
+        spec="FsTypes.tla / FsTypesGen.tla / FsTypesJudge.tla",
+        text="Store ; Read is the identity: TLC enumerates type x ingestion path x value class x NULL placement x row count (3 081 "
+        "cases), each is concretised from edge lists, written through the path and read back through fetchall, fetch_pandas_all "
+        "and a raw engine cursor; equality (bit patterns for floats, parsed JSON, instants for TIMESTAMP_TZ), the Python class "
+        "of the cells and the bystander table are judged by TLC against the type table of the specification.",
+        design="6 C01 (pure-function exception of the method)",
+        technique="type table and case space in TLA+, TLC enumerates the cases, one implementation run per case judged by TLC (values inside a class are sampled)",
+    ),
 }
 
 
